@@ -164,7 +164,14 @@ func heapRun(c *fw.Ctx, ops []hop, opt heapOpts) (div *heapDiv, st heapStats) {
 	var order []int           // held tags in insertion order (for op 'T')
 	ref := map[int]Elem{}     // tag -> element held
 	tag := 0
-	update := func(e Elem, p int) { pos[e.Tag] = p }
+	update := func(e Elem, p int) {
+		if stray == nil && issued[e.Tag] != e {
+			// a position report about something that was never handed to the queue
+			w := e
+			stray = &w
+		}
+		pos[e.Tag] = p
+	}
 	q := heapq.New(cmp) // the function value itself: the queue must not see later changes of the monitor's variable
 	if opt.update {
 		q.Update(update)
@@ -472,7 +479,7 @@ func heapRun(c *fw.Ctx, ops []hop, opt heapOpts) (div *heapDiv, st heapStats) {
 			st.maxLen = len(ref)
 		}
 		if stray != nil {
-			return fail("the comparison function was called with %v, which was never handed to the queue", *stray), st
+			return fail("the comparison function or the update callback was called with %v, which was never handed to the queue", *stray), st
 		}
 		if d := check(); d != nil {
 			return d, st
